@@ -78,11 +78,84 @@ def to_decisions(decs):
     return out
 
 
+DISPATCHERS = ['tryresolve', 'resolve_strategy_generic', 'resolve_conflicted_decisions_list',
+               'resolve_conflicted_decisions_dict', 'resolve_conflicted_decisions_strings']
+
+
+def probe():
+    """Run the five real dispatchers on every strategy string of a universe and report the observable effect."""
+    import itertools
+    import nbdime.log
+    import nbdime.merging.strategies as S
+    import nbdime.merging.generic as G
+    import nbdime.merging.notebooks as N
+    from nbdime.merging.decisions import MergeDecisionBuilder
+    from nbdime.diff_format import op_replace, op_addrange
+    universe = list(N.generic_conflict_strategies)
+    p = parser()
+    ch = {a.dest: list(a.choices) for a in p._actions if a.dest in ('merge_strategy', 'input_strategy', 'output_strategy')}
+    for m in ch['merge_strategy']:
+        for i in [None] + ch['input_strategy']:
+            for o in [None] + ch['output_strategy']:
+                for v in dict(N.notebook_merge_strategies(make_args(m, i, o, True, 'attr'))).values():
+                    if v is not None: universe.append(v)
+    universe += ['inline-attachments', 'inline', 'zz-unknown', 'use-', 'use-other', '', 'mergetool', 'USE-LOCAL', 'use-local ', 'fail', 'take-max']
+    seen = set(); uni = []
+    for s in universe:
+        if s not in seen: seen.add(s); uni.append(s)
+    out = []
+    callees = [n for n in dir(S) if n.startswith('resolve_strategy_') and n != 'resolve_strategy_generic' and callable(getattr(S, n))]
+    for di, disp in enumerate(DISPATCHERS):
+        for s in uni:
+            events = []
+            saved = {n: getattr(S, n) for n in callees}
+            saved_log = (nbdime.log.error, nbdime.log.warning)
+            for n in callees:
+                setattr(S, n, (lambda nm: (lambda *a, **k: events.append('called:' + nm)))(n))
+            nbdime.log.error = lambda *a, **k: events.append('error')
+            nbdime.log.warning = lambda *a, **k: events.append('warning')
+            try:
+                if disp.endswith('strings'):
+                    path = ('source',); base = 'x\ny\n'
+                    ld, rd = [op_addrange(0, ['a\n'])], [op_addrange(0, ['b\n'])]
+                elif disp.endswith('dict'):
+                    path = ('metadata',); base = {'k': 0, 'd': {'a': 0}}
+                    ld, rd = [op_replace('k', 1)], [op_replace('k', 2)]
+                else:
+                    path = ('cells',); base = [{'a': 0}, 'x']
+                    ld, rd = [op_addrange(1, ['a'])], [op_addrange(1, ['b'])]
+                B = MergeDecisionBuilder()
+                B.conflict(path, ld, rd)
+                B.custom(path, ld, rd, [], conflict=True, strategy='marked')
+                sub = ('d',) if disp.endswith('dict') else (0,)
+                B.conflict(path + sub, [op_replace('a', 1)], [op_replace('a', 2)])
+                ret = None; raised = None
+                try:
+                    if disp == 'tryresolve':
+                        ret = B.tryresolve(path, ld, rd, s)
+                    elif disp == 'resolve_strategy_generic':
+                        S.resolve_strategy_generic(path, B, s)
+                    elif disp.endswith('strings'):
+                        S.resolve_conflicted_decisions_strings(path, B, s)
+                    else:
+                        getattr(S, disp)(path, base, B, s)
+                except Exception as e:
+                    raised = type(e).__name__
+                decs = [[d.action, bool(d.conflict)] for d in B.decisions]
+            finally:
+                for n, f in saved.items(): setattr(S, n, f)
+                nbdime.log.error, nbdime.log.warning = saved_log
+            out.append({'d': di, 's': s, 'ret': ret, 'raise': raised, 'events': sorted(set(events)), 'decs': decs})
+    return out
+
+
 def run_task(t):
     op = t['op']
     if op == 'tools':
         import nbdime.prettyprint as PP
         return {'ok': {'git': bool(PP.which('git')), 'diff3': bool(PP.which('diff3'))}}
+    if op == 'probe':
+        return {'ok': probe()}
     if op == 'choices':
         out = {}
         for a in parser()._actions:
